@@ -595,6 +595,9 @@ Proof.
   - exfalso.
     match type of H with
     | (if ?c then _ else _) = _ => destruct c
+    end; [apply pair_inj in H; destruct H as [_ H]; discriminate|].
+    match type of H with
+    | context [if ?c then _ else _] => destruct c
     end; apply pair_inj in H; destruct H as [_ H]; discriminate.
 Qed.
 
